@@ -41,6 +41,9 @@ CHECKS = {
  "C13": dict(level="exploration", technique="exhaustive enumeration of terms x languages x engines x preference sets (each alone, all, thorough: every pair); tokenizer/stack checker plus differential word comparison against engine none",
              text="Terms of the grammar, trigger terms and capital/chemistry/long-row terms under SSML and SAPI5 in en/es/sv (thorough: all 8 languages) with every rate/pitch/volume/pause/math-rate/capital/beep/bookmark preference varied alone, all together and (thorough) pairwise: tags must be of the engine's vocabulary, properly nested and closed, with valid attribute syntax and numeric values; tag-stripped words must equal the engine-free words of the same session; bookmarks must name ids of the expression.",
              note="Word comparison ignores white space and pause punctuation and reads 'eigh' as the letter a.", design="§4 C13"),
+ "C15": dict(level="exploration", technique="exhaustive enumeration of the shipped configuration lattice x a term corpus, in fresh sessions and in single sessions walking through all configurations; fired-rule hook for coverage",
+             text="All 45 language x style x verbosity configurations found under Rules/ with the 8 braille codes rotated through (each code also under English), 7 fallback tags: every preference accepted; speech, overview, braille and a 5-command navigation walk Ok on the corpus; regional/unknown tags equal the language they fall back to; three sessions walking through all configurations reproduce the fresh-session results. Evidence lists rules fired / defined per rule file.",
+             note="Languages/zz is a test fixture and not shipped. Fallback comparison pins the decimal mark because the language tag also selects the locale.", design="§4 C15", engine="E1+E2"),
 }
 PENDING = {}
 
